@@ -64,6 +64,7 @@ func loadProgram(repo, pkgdir string, overlay map[string][]byte) (*Program, *ssa
 	if len(spkgs) != 1 || spkgs[0] == nil {
 		return nil, nil, fmt.Errorf("expected one initial package")
 	}
+	pr.harnessPkg = spkgs[0]
 	return pr, spkgs[0], nil
 }
 
